@@ -177,7 +177,8 @@ class TiledStridedLayoutAttr(MemRefLayoutAttr, Data[TiledStridedLayout]):
         ):
             metadata_op = ExtractStridedMetaDataOp(memref_op)
             assert isinstance(memref_type.element_type, FixedBitwidthType)
-            element_size_op = ConstantOp.from_int_and_width(memref_type.element_type.size, IndexType())
+            # the strides of the metadata op are in number of elements
+            element_size_op = ConstantOp.from_int_and_width(memref_type.element_type.size if in_bytes else 1, IndexType())
             result.extend([metadata_op, element_size_op])
             for dim in range(tsl.dimension()):
                 depth = tsl.tstrides[dim].depth() - 1  # get last depth
